@@ -646,3 +646,97 @@ func ExprFamily() []*Spec {
 	}
 	return out
 }
+
+// Pieces returns the lexical pieces of the canonical rendering and the separators between
+// them (Seps[i] follows Pieces[i]); concatenated they give a text that yaccgo must read as
+// the specification. Extra layout may be inserted after any separator.
+func (s *Spec) Pieces() (pieces, seps []string) {
+	add := func(p, sep string) {
+		pieces = append(pieces, p)
+		seps = append(seps, sep)
+	}
+	add("%{"+GoPrologue+"%}", "\n")
+	add("%union", " ")
+	add("{"+GoUnion+"}", "\n")
+	for _, t := range s.Toks {
+		if t.Decl == "prec" || t.Decl == "rule" {
+			continue
+		}
+		add("%token", " ")
+		if t.Tag != "" {
+			add("<", "")
+			add(t.Tag, "")
+			add(">", " ")
+		}
+		if t.Name != "" && t.Num != 0 {
+			add(t.Ref(), " ")
+			add(fmt.Sprint(t.Num), "\n")
+		} else {
+			add(t.Ref(), "\n")
+		}
+	}
+	for _, p := range s.Prec {
+		add("%"+p.Assoc, " ")
+		for i, sym := range p.Syms {
+			if i+1 < len(p.Syms) {
+				add(sym, " ")
+			} else {
+				add(sym, "\n")
+			}
+		}
+	}
+	byTag := map[string][]string{}
+	for _, n := range s.NTs {
+		if tag := s.NTTag[n]; tag != "" {
+			byTag[tag] = append(byTag[tag], n)
+		}
+	}
+	var tags []string
+	for t := range byTag {
+		tags = append(tags, t)
+	}
+	sort.Strings(tags)
+	for _, t := range tags {
+		add("%type", " ")
+		add("<", "")
+		add(t, "")
+		add(">", " ")
+		for i, n := range byTag[t] {
+			if i+1 < len(byTag[t]) {
+				add(n, " ")
+			} else {
+				add(n, "\n")
+			}
+		}
+	}
+	if !s.NoStartDecl {
+		add("%start", " ")
+		add(s.Start, "\n")
+	}
+	add("%%", "\n")
+	for k := 0; k < len(s.Rules); {
+		lhs := s.Rules[k].Lhs
+		add(lhs, " ")
+		add(":", " ")
+		first := true
+		for k < len(s.Rules) && s.Rules[k].Lhs == lhs {
+			r := s.Rules[k]
+			if !first {
+				add("|", " ")
+			}
+			first = false
+			for _, sym := range r.Rhs {
+				add(sym, " ")
+			}
+			if r.Prec != "" {
+				add("%prec", " ")
+				add(r.Prec, " ")
+			}
+			add(s.Action(k+1, false), "\n")
+			k++
+		}
+	}
+	add("%%", "")
+	add(GoEpilogue, "")
+	return
+}
